@@ -50,7 +50,7 @@ SEG = {
               lambda q: (ops.Dgate(0.3, 0.1) | q[1], ops.Rgate(0.7).H | q[0], ops.BSgate(0.2, 0.5).H | (q[1], q[0]))),
     "feed-forward": (lambda q: (ops.S2gate(0.4) | (q[0], q[1]), ops.MeasureHomodyne(0.0, select=0.35) | q[0]),
                      lambda q: (ops.Xgate(q[0].par) | q[1], ops.Rgate(0.3) | q[1])),
-    "channels": (lambda q: (ops.Coherent(0.4) | q[0], ops.LossChannel(0.8) | q[0]),
+    "channels": (lambda q: (ops.Coherent(0.4) | q[0], ops.LossChannel(0.8) | q[0], ops.LossChannel(0.9) | q[0]),
                  lambda q: (ops.BSgate(0.5, 0.1) | (q[0], q[1]), ops.LossChannel(0.7) | q[1])),
 }
 
@@ -208,6 +208,60 @@ def check_symbolic():
         bad(f"C10: measured parameter used twice around a re-measurement: <x> of mode 1 is {x:.4f}, expected {0.4 - 0.9:.4f}")
 
 
+def check_measured_functions():
+    """C10: a measured parameter behaves like the outcome it stands for, whatever the type of the outcome
+    (real homodyne / integer Fock / complex heterodyne) and under every function of sf.math"""
+    import cmath
+    from strawberryfields.parameters import par_evaluate
+    from strawberryfields.program_utils import RegRef
+    pf = sf.math
+    funcs = {
+        "q": (lambda q: q, lambda v: v),
+        "re(q)": (lambda q: pf.re(q), lambda v: complex(v).real),
+        "im(q)": (lambda q: pf.im(q), lambda v: complex(v).imag),
+        "conjugate(q)": (lambda q: pf.conjugate(q), lambda v: complex(v).conjugate()),
+        "Abs(q)": (lambda q: pf.Abs(q), lambda v: abs(v)),
+        "Abs(q)**2": (lambda q: pf.Abs(q) ** 2, lambda v: abs(v) ** 2),
+        "q*conjugate(q)": (lambda q: q * pf.conjugate(q), lambda v: abs(v) ** 2),
+        "arg(q)": (lambda q: pf.arg(q), lambda v: cmath.phase(v)),
+        "exp(q)": (lambda q: pf.exp(q), lambda v: cmath.exp(v)),
+        "sqrt(q*q)": (lambda q: pf.sqrt(q * q), lambda v: cmath.sqrt(complex(v) * complex(v))),
+        "2*q**2-q/3": (lambda q: 2 * q ** 2 - q / 3, lambda v: 2 * v ** 2 - v / 3),
+        "sin(q)+cos(q)": (lambda q: pf.sin(q) + pf.cos(q), lambda v: cmath.sin(v) + cmath.cos(v)),
+    }
+    for v in (0.7, -1.3, 3, 0, 0.3 + 0.4j, -0.25 - 1.5j, 2j):
+        for name, (build, ref) in funcs.items():
+            if name == "arg(q)" and v == 0:
+                continue
+            EVAL[0] += 1
+            r = RegRef(0)
+            e = build(r.par)
+            r.val = v
+            try:
+                got = complex(par_evaluate(e))
+            except Exception as ex:
+                bad(f"C10: par_evaluate({name}) with outcome {v!r} raised {type(ex).__name__}: {ex}")
+                continue
+            if abs(got - complex(ref(v))) > 1e-9:
+                bad(f"C10: {name} of a measured parameter with outcome {v!r} evaluates to {got}, the function of the outcome is {complex(ref(v))}")
+    # feed-forward of a complex (heterodyne) outcome through im / re on the gaussian backend
+    for name, build, expect in (("Zgate(1.5*im(q0))", lambda q: ops.Zgate(1.5 * pf.im(q[0].par)) | q[1], (0.0, 1.5 * 0.4)),
+                                ("Xgate(2*re(q0))", lambda q: ops.Xgate(2 * pf.re(q[0].par)) | q[1], (2 * 0.3, 0.0))):
+        EVAL[0] += 1
+        prog = sf.Program(2)
+        with prog.context as q:
+            ops.MeasureHeterodyne(select=0.3 + 0.4j) | q[0]
+            build(q)
+        try:
+            st = sf.Engine("gaussian").run(prog).state
+            got = (st.quad_expectation(1, 0)[0], st.quad_expectation(1, np.pi / 2)[0])
+        except Exception as ex:
+            bad(f"C10: heterodyne outcome 0.3+0.4j fed forward through {name} raised {type(ex).__name__}: {ex}")
+            continue
+        if not np.allclose(got, expect, atol=1e-8):
+            bad(f"C10: heterodyne outcome 0.3+0.4j fed forward through {name}: (<x>,<p>) of mode 1 = {np.round(got, 4).tolist()}, the substituted circuit gives {list(expect)}")
+
+
 def check_symbol_identity():
     """F11: same-named symbols of different programs"""
     EVAL[0] += 1
@@ -221,8 +275,8 @@ def check_symbol_identity():
 
 if __name__ == "__main__":
     prop = sys.argv[3] if len(sys.argv) > 3 else "both"
-    fns = {"C09": (check_sequencing, check_untouched), "C10": (check_symbolic, check_symbol_identity)}.get(
-        prop, (check_sequencing, check_untouched, check_symbolic, check_symbol_identity))
+    fns = {"C09": (check_sequencing, check_untouched), "C10": (check_symbolic, check_measured_functions, check_symbol_identity)}.get(
+        prop, (check_sequencing, check_untouched, check_symbolic, check_measured_functions, check_symbol_identity))
     for f in fns:
         try:
             f()
